@@ -70,6 +70,7 @@ type World struct {
 	barrierPts     map[string]bool
 	burstGen       atomic.Int64
 	lined          atomic.Int64
+	readSpun       atomic.Bool
 	stop           chan struct{}
 	wg             sync.WaitGroup
 	parkSet        map[string]bool
@@ -635,6 +636,18 @@ func (w *World) onYield(point string, objs ...any) {
 }
 
 func (w *World) onEmit(event string, objs ...any) {
+	if event == "state_read" {
+		// Not recorded. The rotation is rebuilt by reading every target's state one after the other; after a barrier burst
+		// the first such read of a chosen target is held back for a little real time, so that a concurrent state change and
+		// rebuild by another probe loop fits between this loop's reads (harmless when the reads are made under lb.lock).
+		if len(w.plan.ReadSpin) == 0 || w.burstGen.Load() == 0 {
+			return
+		}
+		if us := w.plan.ReadSpin[server.VerifTargetName(objs[0].(*server.Target))]; us > 0 && w.readSpun.CompareAndSwap(false, true) {
+			spinFor(us)
+		}
+		return
+	}
 	kv := KV{}
 	switch event {
 	case "claim", "claim_refused", "end_inflight":
